@@ -61,6 +61,15 @@ template <> struct VT<String> {
 	static int num(const String& v) { for (int i = 0; i < N; i++) if (v == tab()[i]) return i; return 99; }
 };
 
+// ---- growth policy of the hash tables, MEASURED on the library instead of assumed (a different default table size, growth
+// threshold or growth factor does not change the property): the size of a default-constructed table, and the number of
+// entries with which a default table still has its initial size but regrows when one more new key is inserted
+template <class K, class V, class C> struct HashPolicy {
+	static int measure() { C h; int t = h.a.length(); for (int i = 0; i < 8192; i++) { h[KT<K>::fillkey(i)] = VT<V>::val(1); if (h.a.length() != t) return i; } return 225; }
+	static int defTable() { static int t = C().a.length(); return t; }
+	static int fullAt() { static int g = measure(); return g; }
+};
+
 static bool nativeLess(int a, int b) { return a < b; }
 static bool nativeLess(const String& a, const String& b) { return ks(a) < ks(b); } // std::string: unsigned byte order, as strcmp (keys have no embedded NUL)
 static bool sameKey(int a, int b) { return a == b; }
@@ -127,7 +136,8 @@ static bool checkHash(C& J, const Ref& M, const KeyList<K>& keys, const char* nm
 		V* q = J.find(keys.k[k]);
 		if ((q != 0) != e || (q && *q != VT<V>::val(it->second))) { err = fmt("non-const %s.find(%s)", nm, keys.s[k].c_str()); return false; }
 		if (I.get(keys.k[k], VT<V>::val(7)) != VT<V>::val(e ? it->second : 7)) { err = fmt("%s.get(%s)", nm, keys.s[k].c_str()); return false; }
-		if (I[keys.k[k]] != VT<V>::val(e ? it->second : 0)) { err = fmt("const %s[%s]", nm, keys.s[k].c_str()); return false; }
+		// const operator[] of HashMap is documented "the key has to exist" (unlike Map's, which documents the default for an absent key): only present keys are asked
+		if (e && I[keys.k[k]] != VT<V>::val(it->second)) { err = fmt("const %s[%s]", nm, keys.s[k].c_str()); return false; }
 	}
 	// every entry exactly once: as many visits as entries, every visited key is in the reference with its value, no reference entry visited twice
 	std::vector<const int*>& seen = scratchPtrs();
@@ -299,11 +309,13 @@ struct HashSys {
 	C* im[2];
 	Ref* mm[2];
 	KeyList<K> keys;
+	int G; // entries that fill a default table to its growth threshold (225 in the library as it stands)
 	int W_GROW_TINY, W_GROW_FILL, W_RM_HEAD, W_RM_MID, W_RM_TAIL, W_RM_ABSENT, W_EQ_DIFF_ORDER, W_EQ_DIFF_SIZE, W_COLLIDE, W_ALIAS, W_ASSIGN_OVER, W_NEGHASH, W_POSTFILL;
 	static bool isNew(Kind k) { return k <= NEWDEF || k == NEW0 || k == NEW3; }
 	// the first 54 op numbers are those of the original alphabet (5 keys), so that older case strings keep their meaning
 	HashSys(const std::string& label, const KeyList<K>& kl) : keys(kl) {
 		im[0] = im[1] = 0; mm[0] = mm[1] = 0;
+		G = HashPolicy<K, V, C>::fullAt();
 		for (int m = 0; m < 2; m++) {
 			add(NEW1, m); add(NEW2, m); add(NEW4, m); add(NEWDEF, m);
 			for (int k = 0; k < 5; k++) { add(INDEX_ASSIGN, m, k, 1); add(SET, m, k, 2); add(INDEX_READ, m, k); add(REMOVE, m, k); }
@@ -328,9 +340,9 @@ struct HashSys {
 		if (!im[o.m]) return false;
 		if (o.k == CLEAR) return !mm[o.m]->empty();
 		if (o.k == CLONE_TO) return true;
-		if (o.k == FILL225) return im[o.m]->a.length() == 256 + ASL_HMAP_SKIP && mm[o.m]->size() < 10;
+		if (o.k == FILL225) return im[o.m]->a.length() == HashPolicy<K, V, C>::defTable() && mm[o.m]->size() < 10;
 		if (o.k == REMOVE_ALIAS) return mm[o.m]->count(keys.s[o.key]) != 0;
-		return mm[o.m]->size() < 240;
+		return (int)mm[o.m]->size() < G + 15;
 	}
 	const char* predict(int) { return 0; }
 	std::string opname(int op) {
@@ -345,15 +357,16 @@ struct HashSys {
 		case REMOVE_ALIAS: return fmt("h%d.remove(<the key %s stored inside h%d>)", o.m, keys.s[o.key].c_str(), o.m);
 		case CLEAR: return fmt("h%d.clear()", o.m);
 		case CLONE_TO: return fmt("h%d = h%d.clone()", 1 - o.m, o.m);
-		case FILL225: return fmt("h%d: insert 225 more keys (%s...)", o.m, ks(KT<K>::fillkey(0)).c_str());
+		case FILL225: return fmt("h%d: insert %d more keys (%s...)", o.m, G, ks(KT<K>::fillkey(0)).c_str());
 		}
 		return "?";
 	}
+	// The chains are read through the public enumeration (bins in ascending order, chain order within a bin) and binOf(): no
+	// dependence on the node type or its link field.
 	void chainPos(int m, const K& key) { // witness: where in its chain does the key sit
 		C& I = *im[m];
-		typename C::KeyValN* p = I.a[I.binOf(key)];
-		int pos = 0, len = 0, at = -1;
-		for (; p; p = p->next, pos++) { if (p->key == key) at = pos; len++; }
+		int bin = I.binOf(key), len = 0, at = -1, g = 0;
+		for (typename C::Enumerator e = I.all(); e && g < 100000; ++e, ++g) if (I.binOf(~e) == bin) { if (~e == key) at = len; len++; }
 		if (at < 0) vf::add(W_RM_ABSENT); else if (at == 0 && len > 1) vf::add(W_RM_HEAD); else if (at == len - 1 && len > 1) vf::add(W_RM_TAIL); else if (len > 2) vf::add(W_RM_MID);
 		if (len > 1) vf::add(W_COLLIDE);
 	}
@@ -368,7 +381,7 @@ struct HashSys {
 		int tbl = I.a.length();
 		bool inserts = (o.k == INDEX_ASSIGN || o.k == SET || o.k == INDEX_READ) && !M.count(keys.s[o.key]);
 		if (inserts && KT<K>::negHash(keys.k[o.key])) vf::add(W_NEGHASH);
-		if (o.k != FILL225 && o.k != CLONE_TO && o.k != CLEAR && M.size() > 200) vf::add(W_POSTFILL);
+		if (o.k != FILL225 && o.k != CLONE_TO && o.k != CLEAR && (int)M.size() >= G) vf::add(W_POSTFILL);
 		switch (o.k) {
 		case INDEX_ASSIGN: I[keys.k[o.key]] = VT<V>::val(o.v); M[keys.s[o.key]] = o.v; break;
 		case SET: I.set(keys.k[o.key], VT<V>::val(o.v)); M[keys.s[o.key]] = o.v; break;
@@ -376,7 +389,7 @@ struct HashSys {
 		case REMOVE: chainPos(o.m, keys.k[o.key]); I.remove(keys.k[o.key]); M.erase(keys.s[o.key]); break;
 		case REMOVE_ALIAS: { // the argument is a reference to the key stored in the node that is being deleted
 			bool found = false; int guard = 0;
-			for (typename C::Enumerator e = I.all(); e && guard < 400; ++e, ++guard) if (ks(~e) == keys.s[o.key]) { found = true; vf::add(W_ALIAS); chainPos(o.m, keys.k[o.key]); I.remove(~e); break; }
+			for (typename C::Enumerator e = I.all(); e && guard < 100000; ++e, ++guard) if (ks(~e) == keys.s[o.key]) { found = true; vf::add(W_ALIAS); chainPos(o.m, keys.k[o.key]); I.remove(~e); break; }
 			if (!found) { err = fmt("key %s not reached by enumeration", keys.s[o.key].c_str()); return false; }
 			M.erase(keys.s[o.key]);
 			break; }
@@ -385,7 +398,7 @@ struct HashSys {
 			if (im[1 - o.m]) { if (!mm[1 - o.m]->empty()) vf::add(W_ASSIGN_OVER); *im[1 - o.m] = I.clone(); *mm[1 - o.m] = M; } // assignment releases the target's old table
 			else { im[1 - o.m] = new C(I.clone()); mm[1 - o.m] = new Ref(M); }
 			break;
-		case FILL225: for (int i = 0; i < 225; i++) { I[KT<K>::fillkey(i)] = VT<V>::val(1); M[ks(KT<K>::fillkey(i))] = 1; } break;
+		case FILL225: for (int i = 0; i < G; i++) { I[KT<K>::fillkey(i)] = VT<V>::val(1); M[ks(KT<K>::fillkey(i))] = 1; } break;
 		default: break;
 		}
 		if (im[o.m]->a.length() != tbl) vf::add(o.k == FILL225 ? W_GROW_FILL : W_GROW_TINY);
@@ -400,26 +413,22 @@ struct HashSys {
 		}
 		return true;
 	}
-	void chain(std::string& s, C& I, int b) {
-		typename C::KeyValN* p = I.a[b];
-		if (!p) return;
-		s += "[";
-		for (int g = 0; p && g < 300; p = p->next, g++) s += ks(p->key) + "=" + char('0' + VT<V>::num(p->value)) + ",";
-		s += "]";
-	}
 	std::string canonOne(int m) {
 		if (!im[m]) return "-";
 		C& I = *im[m];
 		std::string s = fmt("t%d:", I.a.length());
 		if (I.a.length() <= ASL_HMAP_SKIP) return s; // no bins at all (HashMap(0) on a tree without the size clamp)
-		if (mm[m]->size() > 12) { // after the fill: the chains that hold (or would hold) the probe keys, in chain order
-			s += fmt("n%d", (int)mm[m]->size());
-			std::set<int> bins;
-			for (int k = 0; k < keys.n(); k++) bins.insert(I.binOf(keys.k[k]));
-			for (std::set<int>::iterator b = bins.begin(); b != bins.end(); ++b) { s += fmt("b%d", *b); chain(s, I, *b); }
-			return s;
+		bool post = mm[m]->size() > 12; // after the fill: only the chains that hold (or would hold) the probe keys, in chain order
+		std::set<int> bins;
+		if (post) { s += fmt("n%d", (int)mm[m]->size()); for (int k = 0; k < keys.n(); k++) bins.insert(I.binOf(keys.k[k])); }
+		int last = -1, g = 0;
+		for (typename C::Enumerator e = I.all(); e && g < 100000; ++e, ++g) {
+			int b = I.binOf(~e);
+			if (post && !bins.count(b)) continue;
+			if (b != last) { if (last >= 0) s += "]"; if (post) s += "b" + ks(b); s += "["; last = b; }
+			s += ks(~e) + "=" + char('0' + VT<V>::num(*e)) + ",";
 		}
-		for (int b = ASL_HMAP_SKIP; b < I.a.length(); b++) chain(s, I, b);
+		if (last >= 0) s += "]";
 		return s;
 	}
 	std::string canon() { return canonOne(0) + "|" + canonOne(1); }
@@ -482,9 +491,8 @@ struct SetSys {
 	void replace(int m, const Set<int>& v, const std::set<int>& mv) { if (!ms[m]->empty()) vf::add(W_ASSIGN_OVER); *is[m] = v; *ms[m] = mv; }
 	void chainPos(int m, int key) {
 		Set<int>& I = *is[m];
-		HashMap<int, int>::KeyValN* p = I.a[I.binOf(key)];
-		int pos = 0, len = 0, at = -1;
-		for (; p; p = p->next, pos++) { if (p->key == key) at = pos; len++; }
+		int bin = I.binOf(key), len = 0, at = -1, g = 0;
+		for (Set<int>::Enumerator e = I.all(); e && g < 100000; ++e, ++g) if (I.binOf(*e) == bin) { if (*e == key) at = len; len++; }
 		if (at == 0 && len > 1) vf::add(W_RM_HEAD); else if (at >= 0 && at == len - 1 && len > 1) vf::add(W_RM_TAIL); else if (at > 0 && len > 2) vf::add(W_RM_MID);
 	}
 	bool apply(int op, std::string& err) {
@@ -505,7 +513,7 @@ struct SetSys {
 		case REMOVE: { chainPos(o.m, keys[o.key]); int x = keys[o.key]; I >> x; M.erase(keys[o.key]); break; }
 		case REMOVE_ALIAS: { // s >> *e : the argument is the member stored in the node that is being deleted
 			bool found = false; int guard = 0;
-			for (Set<int>::Enumerator e = I.all(); e && guard < 400; ++e, ++guard) if (*e == keys[o.key]) { found = true; vf::add(W_ALIAS); chainPos(o.m, keys[o.key]); I >> *e; break; }
+			for (Set<int>::Enumerator e = I.all(); e && guard < 100000; ++e, ++guard) if (*e == keys[o.key]) { found = true; vf::add(W_ALIAS); chainPos(o.m, keys[o.key]); I >> *e; break; }
 			if (!found) { err = fmt("member %d not reached by enumeration", keys[o.key]); return false; }
 			M.erase(keys[o.key]);
 			break; }
@@ -559,13 +567,9 @@ struct SetSys {
 			if (!is[m]) { s += "-|"; continue; }
 			Set<int>& I = *is[m];
 			s += fmt("t%d:", I.a.length());
-			for (int b = ASL_HMAP_SKIP; b < I.a.length(); b++) {
-				HashMap<int, int>::KeyValN* p = I.a[b];
-				if (!p) continue;
-				s += "[";
-				for (int g = 0; p && g < 300; p = p->next, g++) s += fmt("%d,", p->key);
-				s += "]";
-			}
+			int last = -1, g = 0;
+			if (I.a.length() > ASL_HMAP_SKIP) for (Set<int>::Enumerator e = I.all(); e && g < 100000; ++e, ++g) { int b = I.binOf(*e); if (b != last) { if (last >= 0) s += "]"; s += "["; last = b; } s += ks(*e) + ","; }
+			if (last >= 0) s += "]";
 			s += "|";
 		}
 		return s;
@@ -616,7 +620,7 @@ struct Flat {
 	}
 };
 
-static int W_B_UNSORTED, W_B_DUP, W_B_FAMILY[16], W_SZ_ZERO, W_SZ_NONPOT, W_SZ_GROWN, W_G_T10, W_G_T66, W_G_CHAIN3, W_G_RMCLONE;
+static int W_B_UNSORTED, W_B_DUP, W_B_FAMILY[16], W_SZ_ZERO, W_SZ_NONPOT, W_SZ_GROWN, W_G_GROWN1, W_G_GROWN2, W_G_CHAIN3, W_G_RMCLONE;
 
 // ---- build: every sequence of (key, value) pairs through every constructor / initialiser entry point
 static KeyList<int> BK_I; static KeyList<String> BK_S;
@@ -728,22 +732,26 @@ static std::string sizesDescribe(const std::string& spec) {
 	return fmt("%s(%d): empty lookups, insert the probe keys one by one, fill across the growth threshold, clone, remove", f == 0 ? "HashMap<int,int>" : f == 1 ? "HashDic<String>" : "Set<int>", n);
 }
 
-// ---- grow: every insertion order of keys that share buckets, from HashMap(1) through 1 -> 8 -> 64 bins
+// ---- grow: every insertion order of keys that share buckets, from HashMap(1) through two table growths (1 -> 8 -> 64 bins in the
+// library as it stands; the growths are observed, not assumed)
 // bins of 8: {1,9,65,73,-63,17,193}->1, {2,10}->2 ; bins of 64: {1,65,-63,193}->1, {9,73}->9, 17, 2, 10
 static KeyList<int> GK;
 static bool growCase(const std::string& spec, std::string& err) {
 	std::vector<int> q = parseSeq(spec);
 	int n = (int)q.size(), N = GK.n();
 	HashMap<int, int> h(1); Ref M;
-	for (int i = 0; i < n; i++) { if (q[i] < 0 || q[i] >= N) { err = "bad case"; return false; } h[GK.k[q[i]]] = 1 + i % 3; M[GK.s[q[i]]] = 1 + i % 3; }
-	if (h.a.length() == 8 + ASL_HMAP_SKIP) vf::add(W_G_T10);
+	int grown = 0, t = h.a.length();
+	for (int i = 0; i < n; i++) { if (q[i] < 0 || q[i] >= N) { err = "bad case"; return false; } h[GK.k[q[i]]] = 1 + i % 3; M[GK.s[q[i]]] = 1 + i % 3; if (h.a.length() != t) { grown++; t = h.a.length(); } }
+	if (grown == 1) vf::add(W_G_GROWN1);
 	if (!checkHash<int, int, HashMap<int, int> >(h, M, GK, "h", err)) return false;
 	if (n < 8) return true;
-	// with 8 entries in 8 bins the next non-const lookup grows the table a second time
+	// with 8 entries in 8 bins the next non-const lookup grows the table a second time (library as it stands)
 	int r = h[GK.k[q[0]]];
 	if (r != 1) { err = fmt("h[%s] = %d after the second growth, reference 1", GK.s[q[0]].c_str(), r); return false; }
-	if (h.a.length() == 64 + ASL_HMAP_SKIP) vf::add(W_G_T66);
-	{ HashMap<int, int>::KeyValN* p = h.a[h.binOf(1)]; int len = 0; for (; p && len < 99; p = p->next) len++; if (len >= 3) vf::add(W_G_CHAIN3); }
+	if (h.a.length() == t && grown < 2) { h[777001] = 5; h.remove(777001); } // a library that grows only when a NEW key arrives: let one arrive (and go)
+	if (h.a.length() != t) { grown++; t = h.a.length(); }
+	if (grown >= 2) vf::add(W_G_GROWN2);
+	if (grown >= 2) { int mx = 0; for (int i = 0; i < N; i++) { int c = 0; for (int j = 0; j < N; j++) if (h.binOf(GK.k[j]) == h.binOf(GK.k[i])) c++; if (c > mx) mx = c; } if (mx >= 3) vf::add(W_G_CHAIN3); }
 	if (!checkHash<int, int, HashMap<int, int> >(h, M, GK, "h (after the second growth)", err)) return false;
 	if (n < N) return true;
 	for (int j = 0; j < N; j++) { // every single removal from an independent copy of the grown table
@@ -780,13 +788,13 @@ static KeyList<int> AU_MI, AU_HI, AU_SI; static KeyList<String> AU_DS, AU_HS;
 static const char* AKIND[] = { "Map<int,int>", "Dic<String>", "HashMap<int,int>", "HashDic<String>", "Set<int>" };
 enum AOp { A_SET, A_CALL, A_INDEX_ASSIGN, A_INDEX_READ, A_REMOVE, A_SELF_ADD, A_SELF_ASSIGN, A_SELF_CLONE, A_SELF_UNION, A_SELF_INTER, A_SELF_DIFF, A_INITLIST_OWN, A_NOPS };
 static const char* AOPN[] = { "c.set(K, V)", "c(K, V)", "c[K] = external value", "read c[K] (non-const)", "c.remove(K)", "c.add(c) / s << s", "c = c", "c = c.clone()", "s = s + s", "s = s & s", "s = s - s", "d = { {K, V} } (initializer list of references)" };
-static int W_A_SUB[5], W_A_VREF_BEFORE, W_A_VREF_AFTER, W_A_VREF_FULL, W_A_VREF_OVER, W_A_VREF_OWN, W_A_VKEY, W_A_KVAL_INS, W_A_KVAL_OVER, W_A_KKEY, W_A_HGROW, W_A_HGROW_FILL, W_A_SELF, W_A_INITLIST, W_A_SET_REGROW;
+static int W_A_SUB[5], W_A_VREF_BEFORE, W_A_VREF_AFTER, W_A_VREF_FULL, W_A_VREF_OVER, W_A_VREF_OWN, W_A_VKEY, W_A_KVAL_INS, W_A_KVAL_OVER, W_A_KKEY, W_A_HGROW, W_A_HGROW_FILL, W_A_SELF, W_A_INITLIST, W_A_SET_ATFULL;
 struct Flat; static Flat* FA;
 static void aliasFail(const std::string& subspec, const char* sig);
 
 static int numOf(int v) { return v; }
 static int numOf(const String& v) { return VT<String>::num(v); }
-template <class K, class C> static const K* storedKey(C& I, const K& k) { int g = 0; for (typename C::Enumerator e = I.all(); e && g < 400; ++e, ++g) if (sameKey(~e, k)) return &~e; return 0; }
+template <class K, class C> static const K* storedKey(C& I, const K& k) { int g = 0; for (typename C::Enumerator e = I.all(); e && g < 100000; ++e, ++g) if (sameKey(~e, k)) return &~e; return 0; }
 
 // d = { {key, <reference to a value of d>}, ... }: only Dic has an initializer list of references
 template <class C, class KL> static bool initlistOwn(C&, Ref&, const KL&, int, int, std::string&) { return true; }
@@ -818,17 +826,17 @@ template <class K, class V, class C> struct AOrdered {
 template <class K, class V, class C> struct AHashed {
 	enum { ORDERED = 0, NVAR = 5 };
 	static C* make(int v) { return v < 3 ? new C(1 << v) : new C(); }
-	static void finish(C& I, Ref& M, int v, int have) { if (v == 4) for (int i = 0; i < 225 - have; i++) { I[KT<K>::fillkey(i)] = VT<V>::val(1); M[ks(KT<K>::fillkey(i))] = 1; } } // the next non-const lookup regrows the table
+	static void finish(C& I, Ref& M, int v, int have) { if (v == 4) for (int i = 0; i < HashPolicy<K, V, C>::fullAt() - have; i++) { I[KT<K>::fillkey(i)] = VT<V>::val(1); M[ks(KT<K>::fillkey(i))] = 1; } } // the next non-const lookup regrows the table
 	static bool check(C& I, const Ref& M, const KeyList<K>& U, const char* nm, std::string& err) { return checkHash<K, V, C>(I, M, U, nm, err); }
 	static bool remove(C& I, const K& k, bool, std::string&) { I.remove(k); return true; }
 	static void call(C&, const K&, const V&) {}
 	static void selfAdd(C&) {}
 	static int shape(C& I) { return I.a.length(); }
-	static bool full(C& I) { return I.length() >= I.a.length() * 7 / 8; }
+	static bool full(C&) { return false; } // (asked of the ordered kinds only)
 };
 static const char* avariant(int kind, int v) {
 	static const char* o[] = { "default capacity (3, doubling)", "reserve(16) first (no reallocation)" };
-	static const char* h[] = { "table of 1 bin", "table of 2 bins", "table of 4 bins", "default table (256 bins)", "default table filled to 225 entries (the next non-const lookup regrows it)" };
+	static const char* h[] = { "table of 1 bin", "table of 2 bins", "table of 4 bins", "default table", "default table filled to its growth threshold (225 entries in the library as it stands: the next non-const lookup regrows it)" };
 	return kind < 2 ? o[v & 1] : h[v % 5];
 }
 
@@ -910,13 +918,13 @@ static bool aliasSubSet(int variant, const std::vector<int>& q, int op, int a, i
 	struct Del { Set<int>* p; ~Del() { delete p; } } del = { holder };
 	Set<int>& s = *holder; std::set<int> M;
 	for (int j = 0; j < len; j++) { s << U.k[q[j]]; M.insert(U.k[q[j]]); }
-	if (variant == 4) for (int i = 0; i < 225 - len; i++) { s << 1000 + i; M.insert(1000 + i); }
+	if (variant == 4) for (int i = 0; i < HashPolicy<int, int, HashMap<int, int> >::fullAt() - len; i++) { s << 1000 + i; M.insert(1000 + i); }
 	int shape0 = s.a.length();
 	int ext = a < n ? U.k[a] : 0; int* mp = &ext;
-	if ((op == A_SET || op == A_REMOVE) && a >= n) { mp = 0; int g = 0; for (Set<int>::Enumerator e = s.all(); e && g < 400; ++e, ++g) if (*e == U.k[a - n]) { mp = &*e; break; } if (!mp) { err = "harness: member not reached by enumeration"; return false; } vf::add(W_A_KKEY); }
+	if ((op == A_SET || op == A_REMOVE) && a >= n) { mp = 0; int g = 0; for (Set<int>::Enumerator e = s.all(); e && g < 100000; ++e, ++g) if (*e == U.k[a - n]) { mp = &*e; break; } if (!mp) { err = "harness: member not reached by enumeration"; return false; } vf::add(W_A_KKEY); }
 	Set<int>& r = s;
 	switch (op) {
-	case A_SET: M.insert(*mp); s << *mp; break; // s << <member stored in s>: nothing to insert, but the lookup may regrow the table
+	case A_SET: if (a >= n && variant == 4) vf::add(W_A_SET_ATFULL); M.insert(*mp); s << *mp; break; // s << <member stored in s>: nothing to insert, but the lookup may regrow the table
 	case A_REMOVE: M.erase(*mp); s >> *mp; break;
 	case A_SELF_ADD: vf::add(W_A_SELF); s << r; break;
 	case A_SELF_ASSIGN: vf::add(W_A_SELF); s = r; break;
@@ -926,7 +934,7 @@ static bool aliasSubSet(int variant, const std::vector<int>& q, int op, int a, i
 	case A_SELF_DIFF: vf::add(W_A_SELF); s = s - r; M.clear(); break;
 	default: break;
 	}
-	if (op == A_SET && a >= n && s.a.length() != shape0) vf::add(W_A_SET_REGROW);
+	(void)shape0;
 	if (!s.contains(r) || s.containsAny(r) != !M.empty() || !(s == r) || s != r) { err = "s.contains(s) / s.containsAny(s) / s == s"; return false; }
 	std::vector<int> probe; for (int i = 0; i < n; i++) probe.push_back(U.k[i]);
 	return checkSet(s, M, &probe[0], n, "s", err);
@@ -1033,6 +1041,9 @@ int main(int argc, char** argv) {
 	for (int i = 0; i < KT<String>::nkeys(); i++) ks_h.add(KT<String>::key(i));
 	{ static const int k9[] = { INT_MIN, -3, -2, -1, 0, 1, 2, 3, INT_MAX }; for (int i = 0; i < 9; i++) ki_9.add(k9[i]); }
 	HK_I = ki_h; HK_S = ks_h;
+	// measured once, in the coordinator
+	vf::setinfo("hash_policy", fmt("{\"default_table\": %d, \"int_full_at\": %d, \"string_full_at\": %d}", HashPolicy<int, int, HashMap<int, int> >::defTable() - ASL_HMAP_SKIP, HashPolicy<int, int, HashMap<int, int> >::fullAt(), HashPolicy<String, String, HashDic<String> >::fullAt()));
+	HashPolicy<String, String, HashDic<String> >::defTable();
 	{ static const int bk[] = { INT_MAX, -1, INT_MIN, 1, 0 }; static const char* bs[] = { "\xe9t\xe9", "b", "common-prefix-0123456-b", "common-prefix-0123456", "" }; for (int i = 0; i < (T ? 5 : 4); i++) { BK_I.add(bk[i]); BK_S.add(bs[i]); } }
 	{ static const int gk[] = { 1, 9, 65, 73, -63, 17, 2, 10, 193 }; for (int i = 0; i < (T ? 9 : 8); i++) GK.add(gk[i]); }
 
@@ -1055,14 +1066,14 @@ int main(int argc, char** argv) {
 		struct { int* c; const char* n; } w[] = { { &W_A_VREF_BEFORE, "ordered.value_is_own_value.new_key_sorts_before_source" }, { &W_A_VREF_AFTER, "ordered.value_is_own_value.new_key_sorts_after_source" }, { &W_A_VREF_FULL, "ordered.value_is_own_value.insert_at_full_capacity" },
 			{ &W_A_VREF_OVER, "value_is_own_value.overwrites_existing_key" }, { &W_A_VREF_OWN, "value_is_the_value_of_the_same_key" }, { &W_A_VKEY, "value_is_own_stored_key" }, { &W_A_KVAL_INS, "key_is_own_stored_value.inserts" }, { &W_A_KVAL_OVER, "key_is_own_stored_value.key_present_or_removed" },
 			{ &W_A_KKEY, "key_is_own_stored_key" }, { &W_A_HGROW, "hash.aliased_argument_while_tiny_table_regrows" }, { &W_A_HGROW_FILL, "hash.aliased_argument_while_default_table_regrows" }, { &W_A_SELF, "container_itself_as_argument" },
-			{ &W_A_INITLIST, "dic.assign_initlist_of_own_values" }, { &W_A_SET_REGROW, "set.add_own_member_while_table_regrows" } };
+			{ &W_A_INITLIST, "dic.assign_initlist_of_own_values" }, { &W_A_SET_ATFULL, "set.add_own_member_to_table_at_growth_threshold" } };
 		for (size_t i = 0; i < sizeof w / sizeof w[0]; i++) *w[i].c = vf::counter((std::string("w.alias.") + w[i].n).c_str());
 	}
 	fb.body = buildCase; fb.describe = buildDescribe; fs.body = sizesCase; fs.describe = sizesDescribe; fg.body = growCase; fg.describe = growDescribe;
 	W_B_UNSORTED = vf::counter("w.build.list_not_in_key_order"); W_B_DUP = vf::counter("w.build.list_with_repeated_key");
 	for (int b = 0; b < NBUILD; b++) W_B_FAMILY[b] = vf::counter((std::string("w.build.") + BUILDERS[b]).c_str());
 	W_SZ_ZERO = vf::counter("w.sizes.table_size_0"); W_SZ_NONPOT = vf::counter("w.sizes.table_size_not_power_of_2"); W_SZ_GROWN = vf::counter("w.sizes.table_regrown");
-	W_G_T10 = vf::counter("w.grow.table_of_8_bins"); W_G_T66 = vf::counter("w.grow.second_growth_to_64_bins"); W_G_CHAIN3 = vf::counter("w.grow.chain_of_3_survives_second_growth"); W_G_RMCLONE = vf::counter("w.grow.remove_from_clone_of_grown_table");
+	W_G_GROWN1 = vf::counter("w.grow.table_grown_once"); W_G_GROWN2 = vf::counter("w.grow.table_grown_twice"); W_G_CHAIN3 = vf::counter("w.grow.chain_of_3_survives_second_growth"); W_G_RMCLONE = vf::counter("w.grow.remove_from_clone_of_grown_table");
 	{
 		std::vector<std::vector<int> > seqs; std::vector<int> cur;
 		genSeqs(seqs, cur, BK_I.n(), T ? 5 : 4, false);
